@@ -1,4 +1,5 @@
 import GffProofs.Props.C12
+import GffProofs.Props.C12b
 open GffProofs.C12
 #print axioms binOne_isInt
 #print axioms bins_out_of_range_one
@@ -9,3 +10,15 @@ open GffProofs.C12
 #print axioms bin_sound_overlap
 #print axioms bin_sound_within
 #print axioms bed_gff
+#print axioms calcBin_some_some_isInt
+#print axioms calcBin_isInt
+#print axioms calcBin_eq_none_iff
+#print axioms calcBin_start_beyond
+#print axioms calcBin_level
+#print axioms mk'_bin
+#print axioms feature_bin
+#print axioms feature_bin_isInt
+#print axioms row_bin
+#print axioms row_ignores_bin
+#print axioms row_bin_follows_coords
+#print axioms row_bin_some
